@@ -156,6 +156,20 @@ pub struct TaskSet {
     pub limit: u64,
 }
 
+impl TaskSet {
+    /// Cap on the number of jobs per task in one schedule.  Task sets with heavy tasks (long busy
+    /// windows by construction, see `gen::coincidence_taskset`) get a larger cap so that their
+    /// fast tasks keep releasing throughout the window.  A function of the task set only, so a
+    /// replay file reproduces it.
+    pub fn kmax(&self) -> usize {
+        if self.tasks.iter().any(|t| t.wcet >= 40) {
+            1700
+        } else {
+            260
+        }
+    }
+}
+
 /// One job of the explicit schedule description.
 #[derive(Clone, Debug, PartialEq, Eq)]
 pub struct JobSpec {
